@@ -742,6 +742,14 @@ class Exec:
             r = self.contains(a, b, st, node)
             return r if isinstance(op, ast.In) else z3.Not(r)
         # ordering
+        if isinstance(a.ty, T.Tuple) and isinstance(b.ty, T.Tuple) and len(a.ty.ts) == len(b.ty.ts):
+            ia, ib = T.tuple_items(a), T.tuple_items(b)
+            strict = isinstance(op, (ast.Lt, ast.Gt))
+            lt_op = ast.Lt() if isinstance(op, (ast.Lt, ast.LtE)) else ast.Gt()
+            res = z3.BoolVal(not strict)            # all components equal
+            for x, y in reversed(list(zip(ia, ib))):
+                res = z3.Or(self.compare(lt_op, x, y, st, node), z3.And(self.equal(x, y), res))
+            return res
         a, b = self._unopt_for_order(a, st, node), self._unopt_for_order(b, st, node)
         if a.ty in (T.DT, T.TD, T.Date) and a.ty == b.ty:
             x, y = a.t, b.t
@@ -1036,6 +1044,58 @@ class Exec:
     def ev_Lambda(self, node, st):
         raise Unsupported("lambda", node)
 
+    def ev_ListComp(self, node, st):
+        """[elt for x in src if cond]: a fresh list. Modelled by the defining property of a comprehension over a
+        list (order-preserving selection): there is a strictly increasing index map f with
+        result[k] == elt(src[f(k)]) and cond(src[f(k)]); every src index satisfying cond is in the image of f."""
+        if len(node.generators) != 1:
+            raise Unsupported("nested comprehension", node)
+        g = node.generators[0]
+        src = T.opt_inner(self.ev(g.iter, st))
+        if isinstance(src.ty, T.Ref):
+            itf = REG.classes.get(src.ty.cls, {}).get("iter")
+            if not itf:
+                raise Unsupported(f"comprehension over {src.ty}", node)
+            dom = itf(self, src, st)
+            n_src, at = dom.n, dom.at
+        elif isinstance(src.ty, T.List):
+            n_src = self.h.list_len(st, src.t, src.ty)
+            at = lambda i, st2: self.h.list_get(st2, src.ty, src.t, i)   # noqa: E731
+        else:
+            raise Unsupported(f"comprehension over {src.ty}", node)
+        hint = self._comp_hint
+        k = z3.Int(T.fresh_name("ck"))
+        f = z3.Function(T.fresh_name("comp_f"), z3.IntSort(), z3.IntSort())
+        # element type from one symbolic evaluation
+        st2 = st.fork()
+        self.assign(g.target, at(f(k), st2), st2, node)
+        elt = self.ev(node.elt, st2)
+        lty = hint if isinstance(hint, T.List) else T.List(elt.ty)
+        r = self.new_obj(st, "comp")
+        n_res = z3.Int(T.fresh_name("comp_n"))
+        self.h.list_set_len(st, r, n_res, lty)
+        res = V(lty, [r])
+        conds = [self.truthy(st2, self.ev(c, st2)) for c in g.ifs]
+        cond_k = z3.And(*conds) if conds else z3.BoolVal(True)
+        got = self.h.list_get(st, lty, r, k)
+        st.pc.append(n_res >= 0)
+        st.pc.append(n_res <= n_src)
+        st.pc.append(z3.ForAll([k], z3.Implies(z3.And(k >= 0, k < n_res),
+                                               z3.And(f(k) >= 0, f(k) < n_src, cond_k, self.equal(got, T.coerce(elt, lty.t))))))
+        k2 = z3.Int(T.fresh_name("ck2"))
+        st.pc.append(z3.ForAll([k, k2], z3.Implies(z3.And(0 <= k, k < k2, k2 < n_res), f(k) < f(k2))))
+        # completeness: every qualifying source index is selected
+        j = z3.Int(T.fresh_name("cj"))
+        st3 = st.fork()
+        self.assign(g.target, at(j, st3), st3, node)
+        conds_j = [self.truthy(st3, self.ev(c, st3)) for c in g.ifs]
+        cond_j = z3.And(*conds_j) if conds_j else z3.BoolVal(True)
+        st.pc.append(z3.ForAll([j], z3.Implies(z3.And(j >= 0, j < n_src, cond_j),
+                                               z3.Exists([k], z3.And(k >= 0, k < n_res, f(k) == j)))))
+        return res
+
+    _comp_hint = None
+
     # spec expressions ------------------------------------------------------
     def spec_eval(self, st, src, binds=None, result=None, old_state=None) -> V:
         """Evaluate a contract expression (Python syntax + old/result/forall/implies/ghost)."""
@@ -1180,6 +1240,12 @@ class Exec:
             elif hint.ghost_sum:
                 raise Unsupported("non-empty list literal for a list with ghost sum", value)
             return v
+        if isinstance(value, ast.ListComp):
+            self._comp_hint = hint
+            try:
+                return self.ev(value, st)
+            finally:
+                self._comp_hint = None
         if isinstance(value, ast.Dict) and isinstance(hint, T.Dict):
             self._pending_dict_type = hint
             try:
